@@ -376,17 +376,17 @@ def syncKey (st : DB × Bytes) (k : Key) : DB × Bytes :=
   | some _ => st
   | none =>
     match ilookup k db.index with
-    | some rec =>
-      match rec.data with
+    | some rc =>
+      match rc.data with
       | none => (fail db "panic", bidx)            -- Slice() of a record without data: nil dereference
       | some val =>
         let fpos := db.lastPos
         let db := emit db "qdb.sync:data-written" (.writeDat db.dataSeq fpos val)
         let db := { db with lastPos := fpos + val.length }
-        let rec := { rec with pos := u32 fpos, seq := db.dataSeq }
-        let bidx := bidx ++ encRec k rec
-        let rec := if hasFlag rec.flags NO_CACHE then { rec with data := none } else rec
-        ({ db with index := iset k rec db.index }, bidx)
+        let rc := { rc with pos := u32 fpos, seq := db.dataSeq }
+        let bidx := bidx ++ encRec k rc
+        let rc := if hasFlag rc.flags NO_CACHE then { rc with data := none } else rc
+        ({ db with index := iset k rc db.index }, bidx)
     | none => (db, bidx ++ encDel k)
 
 def sync (db : DB) : DB :=
